@@ -218,7 +218,7 @@ WithOpens(a, s) == [a EXCEPT !.opening = OpenIds(s), !.settling = IF s.runq = <<
 \* a get/put: sBefore = state at the instant of the sample's publication as far as opens go
 SampleStep(sMid, r, k) ==
   LET abm == WithOpens(AbQ, sMid)
-      ev == [k |-> k, t |-> 0, u |-> 0, lo |-> r.lo, hi |-> r.hi, sB |-> r.sB, iB |-> r.iB, hB |-> r.hB,
+      ev == [k |-> k, t |-> 0, u |-> 0, ref |-> NoRef, lo |-> r.lo, hi |-> r.hi, sB |-> r.sB, iB |-> r.iB, hB |-> r.hB,
              avg |-> r.avg, a |-> GA(r.s), i |-> GI(r.s)]
   IN IF r.obs
      THEN /\ Note(SampleCheck(abm, ev))
